@@ -63,7 +63,7 @@ func runC11(c *core.Ctx) {
 	for _, f := range core.WithAnons(cd) {
 		core.Instrs(f, func(in ssa.Instruction) {
 			a, ok := in.(*ssa.Alloc)
-			if !ok || core.TypeName(a.Type()) != "wsync.Operation" || a.Comment != "complit" {
+			if !ok || core.TypeName(a.Type()) != "wsync.Operation" || !isLitAlloc(a) {
 				return
 			}
 			k := int64(0)
@@ -126,7 +126,7 @@ func runC11(c *core.Ctx) {
 			if !ok || n != "BlockSpan" || core.TypeName(b.Type()) != "wsync.Operation" {
 				return
 			}
-			if a, isA := core.CellRoot(b).(*ssa.Alloc); isA && a.Comment == "complit" {
+			if a, isA := core.CellRoot(b).(*ssa.Alloc); isA && isLitAlloc(a) {
 				return // literal initialisation, handled above / by the patcher
 			}
 			nMerge++
